@@ -51,6 +51,10 @@ type exOpts struct {
 	consumers bool
 	maxOps    int64
 	class     string // input class, part of signatures
+	// other, if set, is a spec-valid encoding of (another layout of) the
+	// value the hostile message was derived from: Equal is also run
+	// between the two messages, in both argument orders.
+	other [][]byte
 }
 
 // exercise presents segs to the library and runs the blind walker and the
@@ -172,6 +176,15 @@ func exercise(cfg *common.Config, rec *common.Recorder, idx uint64, segs [][]byt
 		if err == nil {
 			if r2, err := m2.Root(); err == nil {
 				_, _ = capnp.Equal(r, r2)
+			}
+		}
+		if o.other != nil {
+			og := guard(o.other)
+			om := &capnp.Message{Arena: capnp.MultiSegment(og.segs), TraverseLimit: o.T, DepthLimit: o.D}
+			if or, err := om.Root(); err == nil {
+				rec.Count("equal_cross_message", 1)
+				_, _ = capnp.Equal(r, or)
+				_, _ = capnp.Equal(or, r)
 			}
 		}
 	})
@@ -391,7 +404,7 @@ func drawLimits(rng *common.RNG) (uint64, uint) {
 
 func runHostile(cfg *common.Config, rec *common.Recorder, idx uint64, rng *common.RNG) {
 	o := ref.GenOpts{Caps: true, Budget: rng.PickInt(5, 15, 40), NoVoidBig: true}
-	_, _, segs, _ := genEncoded(rng, o, true)
+	logical, _, segs, _ := genEncoded(rng, o, true)
 	dec := ref.NewDecoder(segs, false)
 	if _, err := dec.Root(); err != nil {
 		rec.Inconclusive("reference decode of a reference encoding failed: " + err.Error())
@@ -416,7 +429,12 @@ func runHostile(cfg *common.Config, rec *common.Recorder, idx uint64, rng *commo
 	rec.Distinct(common.Hash64(segs...))
 	rec.Count("via_"+viaNames[via], 1)
 	consumers := T != 1<<40 && cfg.Prop == "C01"
-	exercise(cfg, rec, idx, segs, exOpts{via: via, T: T, D: D, consumers: consumers, maxOps: 20000, class: "mutated-valid"}, rng,
+	var other [][]byte
+	if consumers {
+		// another (valid) layout of the same value, for cross-message Equal
+		other = ref.RandomPlan(rng).Encode(ref.Relayout(rng, logical, true))
+	}
+	exercise(cfg, rec, idx, segs, exOpts{via: via, T: T, D: D, consumers: consumers, maxOps: 20000, class: "mutated-valid", other: other}, rng,
 		map[string]interface{}{"segments": common.SegsHex(segs), "via": viaNames[via], "T": T, "D": D, "mutations": classes})
 	if rec.WantSample() {
 		rec.Sample(map[string]interface{}{"segments": common.SegsHex(segs), "mutations": classes, "via": viaNames[via], "T": T, "D": D})
